@@ -417,19 +417,25 @@ func cmdCheck(args []string) {
 		perKey[key]++
 		f := filepath.Join(replayDir, fmt.Sprintf("%s-%s-%d.json", fv.run.spec.Func, sanitize(fv.v.Label), perKey[key]))
 		writeReplay(f, prop, fv.run.spec, "counterexample", fv.v.Label, fv.v.Inputs, fv.v)
-		if fv.run.spec.NoReplay {
+		if fv.run.spec.NoReplay && fv.v.Kind != "maprace" {
 			// schedule-dependent finding: the engine trace is the replay artefact
 			violationLines = append(violationLines, fmt.Sprintf("VIOLATION property=%s replay=%s", prop, f))
 			fmt.Printf("  (engine-trace) harness=%s label=%s kind=%s site=%s: %s\n", fv.run.spec.Func, fv.v.Label, fv.v.Kind, fv.v.Site, fv.v.Detail)
 			reported[key] = true
 			continue
 		}
-		o := rp.run(fv.run.spec, f, fv.v.Kind == "deadlock")
+		rspec := fv.run.spec
+		if fv.v.Kind == "maprace" {
+			rspec.Race = true // a map race is independent of the schedule: the native run under -race must report it
+		}
+		o := rp.run(rspec, f, fv.v.Kind == "deadlock")
 		ro := replayOutcome{File: f, Kind: "counterexample", Label: fv.v.Label}
 		ok := false
 		switch fv.v.Kind {
 		case "assert":
 			ok = o.assertFail == fv.v.Label || (fv.run.spec.Race && o.race)
+		case "maprace":
+			ok = o.race || strings.Contains(o.output, "concurrent map")
 		case "panic", "fatal":
 			ok = o.panicked
 		case "deadlock":
